@@ -69,7 +69,7 @@ def run(ctx):
     for i in range(len(cases)):
         if rows[i] is None:
             stats["model-FUEL-not-run"] += 1
-            if flags[i] == "P":
+            if flags[i] == "P" and mout[i] == "FUEL":
                 ctx.broken("theorem-vs-model-runner", "model ran out of fuel on a grammar it certifies productive: %r" % (cases[i],))
             continue
         if flags[i] == "P":
